@@ -278,8 +278,102 @@ func c14Program(r *explore.Run, p *wgen.F6oProg) {
 	}
 }
 
+// c14Sizes: overrides used as @workgroup_size arguments and as workgroup array sizes, including
+// sizes derived from another override.
+func c14Sizes(r *explore.Run) {
+	type prog struct{ name, decl, wgExpr, arrExpr string }
+	progs := []prog{
+		{"direct", "override X: u32 = 4u;\n", "X", "X"},
+		{"direct-id", "@id(7) override X: u32 = 4u;\n", "X", "X"},
+		{"nodefault", "override X: u32;\n", "X", "X"},
+		{"derived", "override X: u32 = 4u;\noverride Y: u32 = X * 2u;\n", "Y", "Y"},
+		{"expression", "override X: u32 = 4u;\n", "X + 1u", "X * 2u"},
+		{"i32", "override X: i32 = 4;\n", "X", "X"},
+	}
+	for _, p := range progs {
+		src := p.decl + "var<workgroup> w: array<u32, " + p.arrExpr + ">;\n@group(0) @binding(0) var<storage, read_write> o: array<u32>;\n@compute @workgroup_size(" + p.wgExpr + ") fn main() { w[0] = 1u; o[0] = w[0]; }\n"
+		m, _, err, pn := nagax.Front(src)
+		if pn != nil {
+			continue
+		}
+		if err != nil {
+			r.Violate(explore.Violation{Key: "C14|sizes|" + p.name + "|front-end:" + errClass(err.Error()), Detail: "valid override program rejected: " + err.Error(), Replay: map[string]any{"src": src}})
+			continue
+		}
+		vals := []float64{1, 7, 64}
+		type vm struct {
+			label string
+			pc    map[string]float64
+			x     float64
+			ok    bool
+		}
+		var maps []vm
+		if p.name != "nodefault" {
+			maps = append(maps, vm{"absent", map[string]float64{}, 4, true})
+		} else {
+			maps = append(maps, vm{"absent", map[string]float64{}, 0, false})
+		}
+		key := "X"
+		if p.name == "direct-id" {
+			key = "7"
+		}
+		for _, v := range vals {
+			maps = append(maps, vm{fmt.Sprintf("%s=%v", key, v), map[string]float64{key: v}, v, true})
+		}
+		for _, mp := range maps {
+			r.Count("evaluations", 1)
+			wantWG, wantArr := mp.x, mp.x
+			switch p.name {
+			case "derived":
+				wantWG, wantArr = mp.x*2, mp.x*2
+			case "expression":
+				wantWG, wantArr = mp.x+1, mp.x*2
+			}
+			res, es := c14Resolve(m, mp.pc)
+			rp := map[string]any{"src": src, "constants": mp.label}
+			if !mp.ok {
+				if es == "" {
+					r.Violate(explore.Violation{Key: "C14|sizes|" + p.name + "|missing-value-accepted", Detail: "override without default and without value resolved without error", Replay: rp})
+				}
+				continue
+			}
+			if es != "" {
+				r.Violate(explore.Violation{Key: "C14|sizes|" + p.name + "|naga-error:" + es, Detail: "resolution fails: " + es, Replay: rp})
+				continue
+			}
+			// array size in the resolved module
+			for gi := range res.GlobalVariables {
+				g := &res.GlobalVariables[gi]
+				if g.Name != "w" {
+					continue
+				}
+				if at, ok := res.Types[g.Type].Inner.(ir.ArrayType); ok {
+					got := int64(-1)
+					if at.Size.Constant != nil {
+						got = int64(*at.Size.Constant)
+					}
+					if got != int64(wantArr) {
+						r.Violate(explore.Violation{Key: "C14|sizes|" + p.name + "|array-size", Detail: fmt.Sprintf("[%s] workgroup array has %d elements after resolution, want %v", mp.label, got, wantArr), Replay: rp})
+					}
+				}
+			}
+			bin, err, pn := nagax.SPIRV(res, spirv.DefaultOptions())
+			if err != nil || pn != nil {
+				r.Violate(explore.Violation{Key: "C14|sizes|" + p.name + "|spirv-error:" + errStr(err, pn), Detail: "SPIR-V backend rejects the resolved module: " + errStr(err, pn), Replay: rp})
+				continue
+			}
+			if mod, e := spv.Parse(bin); e == nil {
+				if ls, e2 := mod.LocalSize("main"); e2 == nil && float64(ls[0]) != wantWG {
+					r.Violate(explore.Violation{Key: "C14|sizes|" + p.name + "|workgroup-size", Detail: fmt.Sprintf("[%s] LocalSize is %d, want %v", mp.label, ls[0], wantWG), Replay: rp})
+				}
+			}
+		}
+	}
+}
+
 func runC14() int {
 	r := explore.New("C14")
+	c14Sizes(r)
 	progs := wgen.F6oPrograms()
 	r.Count("programs", int64(len(progs)))
 	r.ParallelFor(len(progs), func(i int) { c14Program(r, progs[i]) })
